@@ -36,6 +36,9 @@ pub enum Ev {
     Invalid(u8),
     FetchHeader(u16),
     FetchTx(u16),
+    /// like Answer, but only requests of the state machine (GetLastState / GetLastStateProof) are answered: fetch requests
+    /// (GetBlocksProof / GetTransactionsProof / GetBlocks) stay unanswered and grow old while the peer keeps talking
+    AnswerState(u16),
 }
 
 #[derive(Debug, Clone, Serialize, Deserialize)]
@@ -44,6 +47,9 @@ pub struct Case {
     pub n_peers: u8,
     pub len: u8,
     pub events: Vec<Ev>,
+    /// all peers are connected and proven by an honest exchange before the first event
+    #[serde(default)]
+    pub warm: bool,
 }
 
 pub struct C11;
@@ -178,8 +184,46 @@ impl Property for C11 {
             1 => (0u8..3).prop_map(Ev::Invalid),
             1 => any::<u16>().prop_map(Ev::FetchHeader),
             1 => any::<u16>().prop_map(Ev::FetchTx),
+            5 => any::<u16>().prop_map(Ev::AnswerState),
         ];
-        (any::<u64>(), 1u8..4, 6u8..40, prop::collection::vec(ev, 1..40)).prop_map(|(seed, n_peers, len, events)| Case { seed, n_peers, len, events }).boxed()
+        // Timeline templates (one case in four): an unanswered fetch request grows old while the peer keeps its last state
+        // fresh and a YOUNGER request is pending as well; every timer has to be honoured on its own. The parameters are
+        // drawn, the random events follow the scripted prefix.
+        let script = (0u8..2, 0u8..3, any::<u16>(), any::<u16>(), 0u8..4, 0u8..4, 0u8..3, any::<bool>()).prop_map(|(old, young, k1, k2, a1, a2, a3, answer_state)| {
+            let mut v = vec![];
+            v.push(if old == 0 { Ev::FetchHeader(k1) } else { Ev::FetchTx(k1) });
+            v.push(Ev::FetchTick);
+            v.push(Ev::Advance([1u8, 4, 5, 6][a1 as usize])); // 100 ms, 8 001 ms, 30 000 ms, 59 999 ms
+            v.push(Ev::Announce(0, 1)); // a new last state: update_ts is fresh again
+            match young {
+                0 => v.push(Ev::Tick), // the proof request for the new last state is the younger request
+                1 => {
+                    v.push(if old == 0 { Ev::FetchTx(k2) } else { Ev::FetchHeader(k2) });
+                    v.push(Ev::FetchTick);
+                }
+                _ => {}
+            }
+            if answer_state {
+                v.push(Ev::AnswerState(0));
+            }
+            v.push(Ev::Advance([5u8, 6, 7, 8][a2 as usize])); // 30 000, 59 999, 60 000, 60 001
+            v.push(Ev::Advance([0u8, 1, 5][a3 as usize])); // 1, 100, 30 000
+            v.push(Ev::Tick);
+            v
+        });
+        let events = prop_oneof![
+            3 => prop::collection::vec(ev.clone(), 1..40),
+            1 => (script, prop::collection::vec(ev, 0..12)).prop_map(|(mut s, tail)| {
+                s.extend(tail);
+                s
+            }),
+        ];
+        (any::<u64>(), 1u8..4, 6u8..40, events, any::<bool>(), any::<bool>())
+            .prop_map(|(seed, n_peers, len, events, warm, single)| {
+                let scripted = matches!(events.first(), Some(Ev::FetchHeader(_)) | Some(Ev::FetchTx(_))) && matches!(events.get(1), Some(Ev::FetchTick));
+                Case { seed, n_peers: if scripted && single { 1 } else { n_peers }, len, events, warm: warm || scripted }
+            })
+            .boxed()
     }
 
     fn run(case: &Case, obs: &mut Obs) -> Result<(), Failure> {
@@ -207,6 +251,18 @@ impl Property for C11 {
             crate::verif_hooks::set_rng_seed(None);
             r
         };
+        if case.warm {
+            for s in 0..n_peers {
+                let tip = w.chains[0].tip();
+                slot[s] = Some(w.connect(0, tip, true));
+            }
+            for _ in 0..6 {
+                w.pump();
+                w.tick(SupportProtocols::LightClient, 0);
+            }
+            w.pump();
+            obs.label("warm-start");
+        }
         for (step, ev) in case.events.iter().enumerate() {
             let before = observe(&w);
             let outbox_before: Vec<(u8, usize, P2pBytes)> = w.shared.sent.lock().unwrap().iter().map(|(p, i, d)| (p.value() as u8, i.value(), d.clone())).collect();
@@ -267,6 +323,44 @@ impl Property for C11 {
                                     packed::LightClientMessageUnion::GetLastState(_) => kind = "last-state",
                                     _ => kind = "fetch-answer",
                                 }
+                            }
+                        }
+                        sender = Some(peer.value());
+                        for (proto, bytes) in w.honest_replies(&msg) {
+                            w.deliver(proto, peer, bytes);
+                        }
+                    }
+                }
+                Ev::AnswerState(i) => {
+                    let cands: Vec<usize> = {
+                        let q = w.shared.sent.lock().unwrap();
+                        q.iter()
+                            .enumerate()
+                            .filter(|(_, (proto, _, d))| {
+                                *proto == SupportProtocols::LightClient.protocol_id()
+                                    && matches!(
+                                        packed::LightClientMessage::from_slice(d).map(|m| m.to_enum()),
+                                        Ok(packed::LightClientMessageUnion::GetLastState(_)) | Ok(packed::LightClientMessageUnion::GetLastStateProof(_))
+                                    )
+                            })
+                            .map(|(k, _)| k)
+                            .collect()
+                    };
+                    if !cands.is_empty() {
+                        let k = cands[idx(*i, cands.len())];
+                        let msg = w.take_request(k).unwrap();
+                        let peer = msg.1;
+                        if let Ok(m) = packed::LightClientMessage::from_slice(&msg.2) {
+                            match m.to_enum() {
+                                packed::LightClientMessageUnion::GetLastStateProof(r) => {
+                                    kind = "proof";
+                                    delivered_proof_for = Some(r.last_hash());
+                                    let rec = before.get(&peer.value()).and_then(|o| o.requested.clone());
+                                    if rec != Some(r.last_hash()) {
+                                        saw_stale = true;
+                                    }
+                                }
+                                _ => kind = "last-state",
                             }
                         }
                         sender = Some(peer.value());
